@@ -1,0 +1,22 @@
+//go:build verif
+
+// Contracts for govc (the /verif contract verifier). Comment-only: with the build tag off this file is not
+// compiled, with it on it adds no code.
+package lines
+
+// C23 kernel: the custom split function follows bufio's SplitFunc protocol for an arbitrary separator: at the first
+// occurrence i of the separator the token is data[:i] and the scanner advances past the whole separator; at EOF the
+// remainder is the last token; otherwise more data is requested.
+//@ func (*DatasourceExecuting).Run$lit1
+//@   requires d != nil
+//@   ensures eofempty: atEOF && len(data) == 0 ==> result0 == 0 && len(result1) == 0 && result2 == nil
+//@   ensures found: !(atEOF && len(data) == 0) && bytesIndex(data, d.separator) >= 0 ==> result0 == bytesIndex(data, d.separator) + len(d.separator) && result1.base == data.base && result1.off == data.off && len(result1) == bytesIndex(data, d.separator) && result2 == nil
+//@   ensures rest: len(data) > 0 && bytesIndex(data, d.separator) < 0 && atEOF ==> result0 == len(data) && result1.base == data.base && result1.off == data.off && len(result1) == len(data) && result2 == nil
+//@   ensures more: bytesIndex(data, d.separator) < 0 && !atEOF ==> result0 == 0 && len(result1) == 0 && result2 == nil
+
+// The read loop: one record per token, unchanged text, numbered 0, 1, 2, ... in order; a scanner error (an over-long
+// line, a read error) fails the datasource (C06).
+//@ func (*DatasourceExecuting).Run
+//@   loop 1 invariant numbering: line == len(OUT) - old(len(OUT)) && len(OUT) >= old(len(OUT)) && len(OUTM) == old(len(OUTM))
+//@   loop 1 step record: len(OUT) == old(len(OUT)) + 1 && line == old(line) + 1 && !lastOut().Retraction && len(lastOut().Values) == len(d.fields)
+//@   ensures scanerror: scanErr(sc) != nil ==> result != nil
